@@ -393,7 +393,13 @@ func (u *Unmarshaler) generateMap(keyType, elemType reflect.Type, mapValue any,
 					return emptyValue, errTypeMismatch
 				}
 
-				SetMapIndexValue(elemType, targetValue, key, reflect.ValueOf(v))
+				val := reflect.ValueOf(v)
+				if !val.Type().AssignableTo(dereffedElemType) {
+					// a declared bool type, like a declared string type below
+					return emptyValue, errTypeMismatch
+				}
+
+				SetMapIndexValue(elemType, targetValue, key, val)
 			case string:
 				if dereffedElemKind != reflect.String {
 					return emptyValue, errTypeMismatch
